@@ -14,16 +14,50 @@ class Horizon(Exception):
     pass
 
 
+class Closed(Exception):
+    """The retry loop is back in a control state it was in one retry earlier: the subtree below repeats."""
+
+
+_SIMPLE = (int, float, bool, str, type(None))
+
+
+def _loop_state():
+    """Control state of the running permute_molecule call as far as plain values show it: line, plain-valued locals
+    (loop counters, flags), plain-valued module globals of tucan.graph_utils. Graph-valued locals are left out: the
+    argument is verified unchanged separately and the candidate result is recomputed from it on every retry."""
+    import sys
+
+    f = sys._getframe(1)
+    while f is not None and f.f_code.co_name != "permute_molecule":
+        f = f.f_back
+    if f is None:
+        return None
+    loc = tuple(sorted((k, v) for k, v in f.f_locals.items() if isinstance(v, _SIMPLE) and k != "random_seed"))
+    glob = tuple(sorted((k, v) for k, v in f.f_globals.items() if isinstance(v, _SIMPLE) and not k.startswith("__")))
+    attrs = tuple(sorted((k, v) for k, v in getattr(f.f_globals.get("permute_molecule"), "__dict__", {}).items()
+                         if isinstance(v, _SIMPLE)))
+    return (f.f_lineno, loc, glob, attrs)
+
+
 class Chooser:
     """Replays `prefix`, then answers 0; records (bound, answer) of every draw."""
 
-    def __init__(self, prefix, max_draws):
+    def __init__(self, prefix, max_draws, natoms=None, close_after=None):
         self.prefix = prefix
         self.points = []
         self.max_draws = max_draws
+        self.natoms = natoms          # a draw with bound == natoms starts a new shuffle
+        self.close_after = close_after  # from this retry number on, a repeated loop state closes the branch
+        self.shuffle_states = []
 
     def __call__(self, n):
         k = len(self.points)
+        if self.natoms is not None and n == self.natoms and self.natoms > 1:
+            self.shuffle_states.append(_loop_state())
+            r = len(self.shuffle_states) - 1  # 0 = initial shuffle, r = r-th retry
+            if (self.close_after is not None and r >= self.close_after and self.shuffle_states[r] is not None
+                    and self.shuffle_states[r] == self.shuffle_states[r - 1]):
+                raise Closed()
         if k >= self.max_draws:
             raise Horizon()
         a = self.prefix[k] if k < len(self.prefix) else 0
@@ -129,6 +163,20 @@ def explore_graph(job):
     from tucan.graph_utils import permute_molecule
 
     n, mask, variant, max_retries = job
+    close_after = None
+    if isinstance(max_retries, tuple):
+        # (executed-in-full retries, execution budget): retries 1..executed are always run; from retry executed+1 on a branch
+        # is closed when the loop's control state repeats, otherwise explored on to the deepest retry the budget allows
+        executed, budget = max_retries
+        close_after = executed + 1
+        import itertools
+        import math
+
+        es = {frozenset(e) for e in G.edges_of(n, mask)}
+        aut = sum(1 for p in itertools.permutations(range(n)) if {frozenset((p[a], p[b])) for a, b in es} == es)
+        max_retries = executed
+        while max_retries < 12 and math.factorial(n) * aut ** (max_retries + 1) <= budget:
+            max_retries += 1
     edges = G.edges_of(n, mask)
     order = None
     labels = None
@@ -137,18 +185,23 @@ def explore_graph(job):
     before = snapshot(g)
     m = len(edges)
     enforce = m > 1 and m != n * (n - 1) // 2
-    res = {"exec": 0, "vios": [], "horizon": 0, "retry_exec": 0, "mappings": set(), "points": 0, "unowned": 0}
+    res = {"exec": 0, "vios": [], "horizon": 0, "closed": 0, "retry_exec": 0, "mappings": set(), "points": 0, "unowned": 0,
+           "deepest_retry": 0}
     max_draws = (n - 1) * (max_retries + 1) if n > 1 else 0
     stack = [[]]
     while stack:
         prefix = stack.pop()
-        ch = Chooser(prefix, max_draws)
+        ch = Chooser(prefix, max_draws, n if close_after is not None else None, close_after)
         cut = False
+        closed = False
         with OwnedRNG(ch) as rng:
             try:
                 r = permute_molecule(g, random_seed=0.5)
             except Horizon:
                 cut = True
+                r = None
+            except Closed:
+                cut = closed = True
                 r = None
             except Exception as ex:
                 res["vios"].append(("C16|exc", _case(n, edges, variant, prefix, f"raised {type(ex).__name__}: {ex}")))
@@ -160,8 +213,9 @@ def explore_graph(job):
         for i in range(len(prefix), len(pts)):
             for alt in range(1, pts[i][0]):
                 stack.append([a for _, a in pts[:i]] + [alt])
+        res["deepest_retry"] = max(res["deepest_retry"], len(ch.shuffle_states) - 1)
         if cut:
-            res["horizon"] += 1
+            res["closed" if closed else "horizon"] += 1
             continue
         if r is None:
             continue
@@ -238,20 +292,23 @@ ZOO = {
 def run(tier):
     rep = Report("C16", tier)
     nmax = 4 if tier == "quick" else 5
+    budget = 30000 if tier == "quick" else 300000  # executions per graph if the retry loop's control state never repeats
     jobs = []
     for n in range(1, nmax + 1):
         for mask in range(1 << (n * (n - 1) // 2)):
-            jobs.append((n, mask, "label-order", 2))
+            jobs.append((n, mask, "label-order", (2, budget)))
             if n in (2, 3) or (n == 4 and mask % 5 == 0):
                 for v in ("scrambled-insertion", "one-based-labels", "sparse-labels", "sparse-scrambled"):
-                    jobs.append((n, mask, v, 2))
+                    jobs.append((n, mask, v, (2, budget)))
     for name, (n, edges) in ZOO.items():
         if n <= (6 if tier == "quick" else 7):
             jobs.append((n, G.mask_of(n, edges), "label-order", 1))
     jobs.sort(key=lambda j: -j[0])
     for job, res in pmap(explore_graph, jobs, chunksize=4):
         rep.add(states=res["exec"] + res["horizon"], transitions=res["points"], traces_validated_against_impl=res["exec"],
-                horizon_cuts=res["horizon"], executions_with_retry=res["retry_exec"], distinct_nontrivial=res["mappings"],
+                horizon_cuts=res["horizon"], branches_closed_by_repeated_loop_state=res["closed"],
+                deepest_retry_reached=max(rep.cov.get("deepest_retry_reached", 0), res["deepest_retry"]) - rep.cov.get("deepest_retry_reached", 0),
+                executions_with_retry=res["retry_exec"], distinct_nontrivial=res["mappings"],
                 executions_with_unowned_draws=res["unowned"])
         for key, case in res["vios"]:
             rep.violation(key, case)
@@ -274,7 +331,12 @@ def run(tier):
             rep.violation(key, case)
     rep.add(graphs_explored=len(jobs), seed_grid=grid, seed_executions=sexec,
             rule="for every labelled graph with n<=4 (thorough 5) atoms with tracer attributes, and zoo members: the tree of "
-                 "all RNG answer vectors (every Fisher-Yates outcome; retries to depth 2, deeper = horizon cut, reported), "
+                 "all RNG answer vectors (every Fisher-Yates outcome); the retry loop is run in full to retry 2; from retry 3 on a "
+                 "branch is closed when the control state of the running permute_molecule frame (line, plain-valued locals, "
+                 "plain-valued module globals) equals the one a retry earlier - the loop is then a cycle of the state graph "
+                 "and every outcome below it has been executed - and is otherwise explored on, up to the deepest retry an "
+                 "execution budget per graph allows (quick 30 000: retry 11 for the 3-atom path, 3..9 for 4 atoms; reported as "
+                 "horizon cut); zoo graphs: retry 1, horizon cut; "
                  "result judged through the tracer attribute; plus a grid of real seeds called twice with other random use "
                  "in between; states = complete executions; distinct_nontrivial = distinct atom mappings observed (summed "
                  "over graphs)")
